@@ -262,23 +262,55 @@ def route_comment_positions(toks, cmts):
     return res
 
 
-def delete_comments(src, cmts, idxs):
-    """remove the comments cmts[i] (i in idxs) from src.  The scanner's line numbers cannot be
-    used (it does not count the line breaks inside block comments and raw strings), so the
-    comments are located in order of appearance."""
+def empty_service_comment_positions(toks, cmts):
+    """shape of the (fixed) finding F16: comments between the braces of an empty service body"""
+    res = []
+    for ci, c in enumerate(cmts):
+        i = c[0]
+        if i < 2 or i + 1 >= len(toks) or toks[i][0] != "{" or toks[i + 1][0] != "}":
+            continue
+        j = i - 1
+        if j >= 2 and toks[j][1] == "api" and toks[j - 1][0] == "-":
+            j -= 2
+        if j >= 1 and toks[j][0] == "IDENT" and toks[j - 1][0] == "IDENT" and toks[j - 1][1] == "service":
+            res.append(ci)
+    return res
+
+
+def edit_comments(src, cmts, edits):
+    """replace the comments cmts[i] by edits[i] (i in edits) in src.  The scanner's line numbers
+    cannot be used (it does not count the line breaks inside block comments and raw strings), so
+    the comments are located in order of appearance."""
     cur = 0
     spans = []
-    want = set(idxs)
     for i, c in enumerate(cmts):
         off = src.find(c[2], cur)
         if off < 0:
             return None
-        if i in want:
-            spans.append((off, off + len(c[2])))
+        if i in edits:
+            spans.append((off, off + len(c[2]), edits[i]))
         cur = off + len(c[2])
-    for a, e in sorted(spans, reverse=True):
-        src = src[:a] + " " + src[e:]
+    for a, e, t in sorted(spans, reverse=True):
+        src = src[:a] + t + src[e:]
     return src
+
+
+def delete_comments(src, cmts, idxs):
+    return edit_comments(src, cmts, {i: " " for i in idxs})
+
+
+CONT_WS = re.compile(r"\n[ \t]+")
+
+
+def multiline_indented(cmts):
+    """F17 shape: indexes of block comments with a continuation line that starts with blanks/tabs"""
+    return [i for i, c in enumerate(cmts) if c[1] == "DOCUMENT" and CONT_WS.search(c[2])]
+
+
+def only_leading_ws_differs(a, b):
+    """do the texts a and b differ only in the leading white space of some lines?"""
+    la, lb = a.split("\n"), b.split("\n")
+    return len(la) == len(lb) and all(x.lstrip(" \t") == y.lstrip(" \t") for x, y in zip(la, lb))
 
 
 def mutant_shape(m):
@@ -477,12 +509,10 @@ class C20(Property):
                 return None
         main_ok = self._main_ok(obs)
         if not main_ok:
-            fid = self._explain_main(case, obs)
-            if fid is None or fid not in kids:
-                fid = self._explain_inline(case, obs) if F22 in kids else None
-            if fid is None:
+            fids = self._explain_main(case, obs, kids)
+            if not fids:
                 return None
-            ids.add(fid)
+            ids.update(fids)
         if not ids or not all(i in kids for i in ids):
             return None
         return sorted(ids)[0]
@@ -493,76 +523,99 @@ class C20(Property):
             return obs["pout"] == "err" and obs["fout"] == "err"
         return obs["fout"] == "ok" and obs["idem"] and c20_norm(obs["ast"]) == obs["fast"]
 
-    def _explain_main(self, case, obs):
-        """F10 only: the source is valid, its meaning is preserved, idempotence fails, there are
-        comments directly after a route path, and without exactly those comments the program
-        satisfies the whole property."""
-        if obs["pout"] != "ok" or obs["fout"] != "ok" or obs.get("serr"):
-            return None
-        if c20_norm(obs["ast"]) != obs["fast"] or obs["idem"]:
-            return None
-        idxs = route_comment_positions(obs["toks"], obs["cmts"])
-        if not idxs:
-            return None
-        src2 = delete_comments(case["src"], obs["cmts"], idxs)
-        if src2 is None:
-            return None
-        rc, out, res = c20lib.run(self.bin, [{"src": src2}])
-        if rc != 0 or len(res) != 1:
-            return None
-        o2 = res[0]
-        if o2["ast"] != obs["ast"] or not self._main_ok(o2):
-            return None
-        return F10
+    def _run1(self, src):
+        rc, out, res = c20lib.run(self.bin, [{"src": src}])
+        return res[0] if rc == 0 and len(res) == 1 else None
 
-    def _explain_inline(self, case, obs):
-        """F22: the source is valid; it has comments that carry a line break (a line comment, or a
-        comment with a line break before/after it) between two tokens that the formatter prints
-        on the same line; and without exactly those comments the program satisfies the whole
-        property.  Which gaps are "same line" is read off the formatted comment-free program."""
-        if obs["pout"] != "ok" or obs.get("serr") or not obs["cmts"]:
-            return None
+    def _f10_idxs(self, case, obs):
+        return route_comment_positions(obs["toks"], obs["cmts"])
+
+    def _inline_idxs(self, case, obs):
+        """comments that carry a line break (a line comment, or a comment with a line break
+        before/after it) between two tokens that the formatter prints on one line; which gaps
+        are "one line" is read off the formatted comment-free program"""
         toks, cmts = obs["toks"], obs["cmts"]
+        if not cmts:
+            return []
         src0 = delete_comments(case["src"], cmts, range(len(cmts)))
-        if src0 is None:
-            return None
-        rc, out, res = c20lib.run(self.bin, [{"src": src0}])
-        if rc != 0 or len(res) != 1:
-            return None
-        o0 = res[0]
-        if not self._main_ok(o0) or o0["pout"] != "ok" or o0["ast"] != obs["ast"]:
-            return None
+        o0 = self._run1(src0) if src0 is not None else None
+        if o0 is None or o0["pout"] != "ok" or not self._main_ok(o0) or o0["ast"] != obs["ast"]:
+            return []
         ft = o0["ftoks"]
         # align the source tokens with the formatted ones (the formatter only deletes tokens:
         # empty constructs and ';')
-        import difflib
-        sm = difflib.SequenceMatcher(a=[(t[0], t[1]) for t in toks], b=[(t[0], t[1]) for t in ft], autojunk=False)
+        # (left-to-right: a formatted token is matched with the first equal source token)
         fidx = {}
-        for blk in sm.get_matching_blocks():
-            for k in range(blk.size):
-                fidx[blk.a + k] = blk.b + k
+        j = 0
+        for i, t in enumerate(toks):
+            if j < len(ft) and t[0] == ft[j][0] and t[1] == ft[j][1]:
+                fidx[i] = j
+                j += 1
+        if j != len(ft):
+            return []
+        # positions that have their own finding ids (repaired in go-zero) are not part of this
+        # family: a regression there must stay a violation
+        own = set(route_comment_positions(toks, cmts)) | set(empty_service_comment_positions(toks, cmts))
         idxs = []
         for ci, c in enumerate(cmts):
             nxt = c[0] + 1
-            if c[0] < 0 or nxt >= len(toks) or nxt not in fidx or c[0] not in fidx:
+            if ci in own or c[0] < 0 or nxt >= len(toks):
                 continue
-            if ft[fidx[nxt]][2] == 1:
+            k = nxt              # tokens the formatter deletes (empty "()" ...) are stepped over
+            while k < len(toks) and k not in fidx:
+                k += 1
+            if k >= len(toks) or ft[fidx[k]][2] == 1:
                 continue         # the formatter breaks the line here anyway: conventional position
-            line_break = (c[1] == "COMMENT") or toks[nxt][2] == 1 or c[3] == 0
-            if line_break:
+            if (c[1] == "COMMENT") or toks[nxt][2] == 1 or c[3] == 0 or "\n" in c[2]:
                 idxs.append(ci)
-        if not idxs:
+        return idxs
+
+    def _explain_main(self, case, obs, kids):
+        """Which registered known finding(s) explain a failing valid program?  Each family has a
+        token-level shape (which comment tokens, where) and a repair of exactly those comments;
+        the program is explained iff it has the shape(s) and the same program with exactly those
+        comments repaired satisfies the whole property (re-executed on the implementation).
+          F10  comment directly after the last token of a route path, before '(' / 'returns'
+               (only idempotence may fail)                                   -> comment removed
+          F17  block comment with a continuation line starting with blanks/tabs (only
+               idempotence may fail, and the two passes differ only in leading white space)
+                                                            -> leading white space removed
+          F22  comment carrying a line break between two tokens the formatter prints on one
+               line                                                          -> comment removed
+        Returns the sorted list of ids needed, or None."""
+        if obs["pout"] != "ok" or obs.get("serr") or not obs["cmts"]:
             return None
-        src2 = delete_comments(case["src"], cmts, idxs)
-        if src2 is None:
+        cmts = obs["cmts"]
+        meaning_ok = obs["fout"] == "ok" and c20_norm(obs["ast"]) == obs["fast"]
+        fam = {}
+        if F10 in kids and meaning_ok:
+            ix = self._f10_idxs(case, obs)
+            if ix:
+                fam[F10] = {i: " " for i in ix}
+        if F17 in kids and meaning_ok:
+            ix = multiline_indented(cmts)
+            if ix:
+                fam[F17] = {i: CONT_WS.sub("\n", cmts[i][2]) for i in ix}
+        if F22 in kids:
+            ix = self._inline_idxs(case, obs)
+            if ix:
+                fam[F22] = {i: " " for i in ix}
+        if not fam:
             return None
-        rc, out, res = c20lib.run(self.bin, [{"src": src2}])
-        if rc != 0 or len(res) != 1:
-            return None
-        o2 = res[0]
-        if o2["ast"] != obs["ast"] or not self._main_ok(o2):
-            return None
-        return F22
+        order = [[f] for f in sorted(fam)] + ([sorted(fam)] if len(fam) > 1 else [])
+        for combo in order:
+            if combo == [F17] and not only_leading_ws_differs(obs["fmt1"], obs["fmt2"]):
+                continue
+            edits = {}
+            for f in combo:
+                for i, t in fam[f].items():
+                    if t == " " or i not in edits:      # removing a comment wins over repairing it
+                        edits[i] = t
+            src2 = edit_comments(case["src"], cmts, edits)
+            o2 = self._run1(src2) if src2 is not None else None
+            if o2 is not None and o2["ast"] == obs["ast"] and self._main_ok(o2):
+                return combo
+        return None
 
     # ---- evidence ---------------------------------------------------------------
     def nontrivial(self, case, obs):
@@ -643,7 +696,7 @@ class C20(Property):
             if s not in seen and s != src and s.strip():
                 seen.add(s)
                 out.append({"src": s, "muts": [], "expect_valid": True} if ev else {"src": s, "muts": []})
-        return out[:400]
+        return out[:160]
 
     def describe_failure(self, case, obs):
         if obs["pout"] not in ("ok", "err") or obs["fout"] not in ("ok", "err"):
